@@ -799,6 +799,7 @@ func gnNodeStream(rng *rand.Rand, n int, tier string, out string) (*Summary, err
 		done := 0
 		if !replaying {
 			gnSharedBytesCases(p, tf, &id, sum)
+			gnDecimalValCases(p, tf, &id, sum)
 		}
 		for done < per {
 			index++
@@ -1207,5 +1208,41 @@ func gnSharedBytesCases(p *reg.Pkg, tf *treeFile, id *int, sum *Summary) {
 					Input: map[string]interface{}{"pkg": p.Name, "scenario": "one bytes_val message set on two binary leaves, then one leaf set again", "step": i, "path": own}})
 			}
 		}
+	}
+}
+
+// gnDecimalValCases: the deprecated decimal_val encoding on the first decimal64 leaf of the
+// package, with precisions inside and outside the range 1..18 that YANG allows (directed cases:
+// the random values reach a decimal64 leaf with a large precision too rarely).
+func gnDecimalValCases(p *reg.Pkg, tf *treeFile, id *int, sum *Summary) {
+	var sites []leafSite
+	rt := reflect.TypeOf(p.NewRoot()).Elem()
+	containerLeaves(rt, p.SchemaTree[rt.Name()], nil, &sites)
+	for _, s := range sites {
+		if _, t := resolveType(s.entry); t == nil || t.Kind != yang.Ydecimal64 || !s.entry.IsLeaf() {
+			continue
+		}
+		pth := &gpb.Path{}
+		for _, n := range s.path {
+			pth.Elem = append(pth.Elem, &gpb.PathElem{Name: n})
+		}
+		for _, prec := range []uint32{0, 2, 18, 19, 25, 400} {
+			root := p.NewRoot()
+			tv := &gpb.TypedValue{Value: &gpb.TypedValue_DecimalVal{DecimalVal: &gpb.Decimal64{Digits: 314, Precision: prec}}}
+			tvt, ok := gnTvTerm(tv)
+			if !ok {
+				continue
+			}
+			err, pan := gnSafeSet(gnRootEntry(p, root), root, pth, tv, &ytypes.InitMissingElements{})
+			tf.cf.add(fmt.Sprintf("GSet %d %s (TCont []) %s %s %s (Some %s)", *id, gnSetOptsTerm(true, false, false, false), gnPathTerm(pth), tvt, gnResUnit(err, pan), treeTerm(root)))
+			*id++
+			sum.count("ops", "set/decimal-val")
+			sum.OracleRuns++
+			if pan {
+				sum.finding(Finding{Signature: "setnode/panic", What: "SetNode panics: " + err.Error(),
+					Input: map[string]interface{}{"pkg": p.Name, "path": gnPathString(pth), "value": fmt.Sprintf("%v", tv)}})
+			}
+		}
+		return
 	}
 }
